@@ -11,7 +11,10 @@ from __future__ import annotations
 import copy
 import hashlib
 import json
+import os
 import random
+import subprocess
+import sys
 
 from .. import gen, harness, oracles
 from ..world import SimWorld
@@ -27,7 +30,7 @@ STUB_COMPONENTS = ["leaf processors (svsim.lib)", "RecordingExecutor", "SimClock
 ASSUMPTIONS = ["volatile fields are exactly: run_id (header and identity.run_id), timestamp, timing.started_at, "
                "timing.finished_at, timing.wall_ms, timing.cpu_ms, seq - nothing else is removed before comparing"]
 REQUIRED_PROBES = ["reused_pipeline_second_traced_run", "reused_pipeline_with_sweep", "failing_subject", "history_contains_other_config",
-                   "result_object_fed_back"]
+                   "result_object_fed_back", "other_process_other_hashseed"]
 CONFIG = {
     "quick": {"runs": 2000, "budget_s": 240, "timeout_s": 120},
     "thorough": {"runs": 60000, "budget_s": 1500, "timeout_s": 120},
@@ -68,7 +71,9 @@ def generate(rng: random.Random, tier: str, seed: int) -> dict:
     if rng.random() < 0.5:
         ops.append(["untraced", "A", None])
     rng.shuffle(ops)
-    return {"A": subject, "B": dict(b, faults=[]), "ops": ops, "fail": fail, "A_truth": a.get("truth"), "remote_exec": rng.random() < 0.25}
+    hs = rng.choice([1, 2, 3, 5, 7]) if (rng.random() < 0.12 or (fail and fail[0].startswith("unresolvable"))) else None
+    return {"A": subject, "B": dict(b, faults=[]), "ops": ops, "fail": fail, "A_truth": a.get("truth"), "remote_exec": rng.random() < 0.25,
+            "hashseed": hs}
 
 
 def normalize(recs: list[dict]) -> list[dict]:
@@ -126,6 +131,33 @@ def _outcome_key(oc: dict, rr: dict) -> dict:
         base = {"ok": False, "exc_type": oc["exc_type"], "exc_msg": oc["exc_msg"], "failing_node": len(rr["exec_log"]) - 1}
     base["leaf_log"] = [[iv["node"], iv["cls"], iv["kwargs"], iv["data"]] for iv in rr["invocations"]]
     return base
+
+
+def _child_main() -> int:
+    """Fresh interpreter under another PYTHONHASHSEED: one traced run of A; prints its normalised records."""
+    harness.setup_process()
+    req = json.loads(sys.stdin.read())
+    sc, seed, detail = req["sc"], req["seed"], req["detail"]
+    w = SimWorld(seed ^ 0xC10, lane="c10child")
+    w.remote_exec = bool(sc.get("remote_exec"))
+    try:
+        rr = harness.run_scenario(sc["A"], w, trace_mode="file", detail=detail, name="child")
+        recs, _ = harness.parse_lines(rr["emissions"])
+        out = {"records": normalize(recs), "outcome": {k: v for k, v in _outcome_key(rr["outcome"], rr).items()}}
+    finally:
+        w.close()
+    print("RESULT " + json.dumps(out, default=repr))
+    return 0
+
+
+def _other_process(sc: dict, seed: int, detail: str) -> dict:
+    env = dict(os.environ, PYTHONHASHSEED=str(sc["hashseed"]))
+    p = subprocess.run([sys.executable, "-m", "svsim.props.c10", "child"], input=json.dumps({"sc": sc, "seed": seed, "detail": detail}),
+                       env=env, capture_output=True, text=True)
+    for line in p.stdout.splitlines():
+        if line.startswith("RESULT "):
+            return json.loads(line[7:])
+    raise RuntimeError(f"fresh interpreter failed: {p.stdout[-800:]} {p.stderr[-1500:]}")
 
 
 def execute(sc: dict, seed: int) -> dict:
@@ -202,6 +234,17 @@ def execute(sc: dict, seed: int) -> dict:
                 if d:
                     viols.append(oracles.V("reproducible", f"trace_differs:{_field_of(d)}", f"op {i} ({how}) vs op {i0} ({how0}), detail={detail}: {d}"))
                     break
+        # the "second" run may just as well happen in another process (its own hash seed): same trace modulo volatile fields
+        if sc.get("hashseed") is not None and a_traced:
+            detail = sorted(a_traced)[0]
+            other = _other_process(sc, seed, detail)
+            stats["probe.other_process_other_hashseed"] = 1
+            i0, how0, _ok0, n0 = a_traced[detail][0]
+            mine = json.loads(json.dumps(n0, default=repr))
+            d = _first_diff(mine, other["records"])
+            if d:
+                viols.append(oracles.V("reproducible", f"trace_differs_across_processes:{_field_of(d)}",
+                                       f"op {i0} ({how0}) vs a fresh interpreter with PYTHONHASHSEED={sc['hashseed']}, detail={detail}: {d}"))
         seen, uniq = set(), []
         for v in viols:
             kk = (v["clause"], v["key"])
@@ -221,6 +264,8 @@ def execute(sc: dict, seed: int) -> dict:
 
 
 def shrink_candidates(sc: dict):
+    if sc.get("hashseed") is not None:
+        yield dict(sc, hashseed=None)
     ops = sc["ops"]
     for i in reversed(range(len(ops))):
         if len(ops) <= 2:
@@ -241,3 +286,8 @@ def shrink_candidates(sc: dict):
             if t is None or any(x["missing"] or not x["type_ok"] for x in t):
                 continue
             yield dict(sc, A=b)
+
+
+if __name__ == "__main__":
+    if len(sys.argv) > 1 and sys.argv[1] == "child":
+        sys.exit(_child_main())
